@@ -20,14 +20,7 @@ FAMS = ["faults"]
 # signatures are computed by Trace_Faults.Sig / Trace_URLState.Sig.
 # eleven of the thirteen causes found by this check were fixed in /repo (known-findings.json, kind "fixed"); the two below are
 # deliberate-looking behaviour of native calls (no documented contract) and stay listed as known findings
-PROPOSED_KNOWN = [
-    {"kind": "known", "signature": {"fam": "show", "value": "nil-pointer-to-value-receiver-stringer", "ctxclass": "string-like"},
-     "what": "showing a nil pointer whose type has a value-receiver String method ((*time.Time)(nil), (*T)(nil)) in a text/HTML/attribute/CSS/string/Markdown/URL context: the renderer calls v.String() on the nil pointer -> Go run-time panic 'value method ... called using nil pointer' under OpShow -> host panic (fmt prints <nil>)"},
-    {"kind": "known", "signature": {"fam": "show", "value": "nil_interface", "ctx": "cssstr"},
-     "what": "showing a nil interface value in a CSS string context: showInCSSString calls reflect.ValueOf(nil).Type() -> *reflect.ValueError under OpShow -> host panic"},
-    {"kind": "known", "signature": {"fam": "show", "value": "cyclic", "ctxclass": "script"},
-     "what": "showing a self-referencing pointer / map / slice in a JavaScript or JSON context: showInJS/showInJSON recurse without a depth or cycle check -> the goroutine stack overflows and the Go run time kills the process (encoding/json returns an error)"},
-]
+PROPOSED_KNOWN = []   # integrated into known-findings.json
 
 
 # ---------------------------------------------------------------------------------------------- helpers
